@@ -2,6 +2,7 @@
 """Run the quick check of each seeded mutant's property with the mutant applied to /repo (reverted straight after).
 usage: mutant_matrix.py [PROP ...]   writes /verif/seeded/RESULTS.json"""
 import json, os, subprocess, sys, time
+os.environ["VERIF_EVIDENCE_DIR"] = "/tmp/verif_mutant_evidence"  # never clobber the real tree's evidence
 SEEDED = "/verif/seeded"
 def sh(cmd, cwd=None, timeout=3600):
     p = subprocess.run(cmd, shell=True, cwd=cwd, capture_output=True, text=True, timeout=timeout)
